@@ -1,7 +1,7 @@
 ---- MODULE PyAggr_Gen ----
 (* scenario generator: every legal declaration within the bounds and every operation sequence of the given     *)
 (* length over the index window and the value pool (operations, not outcomes: the outcome is the container's). *)
-EXTENDS Integers, Sequences, TLC, Json
+EXTENDS Integers, Sequences, FiniteSets, TLC, Json
 (* (Bases / Concrete are copied from PyAggr.tla: this wrapper does not instantiate the module) *)
 Bases == <<"INTEGER", "REAL", "STRING">>
 Concrete(b) == CASE b = "INTEGER" -> <<"0", "1", "-1", "7">> [] b = "REAL" -> <<"0.0", "1.5", "-2.5", "1e10">> [] b = "STRING" -> <<"", "a", "b", "ab">>
@@ -22,7 +22,8 @@ Ops(r) == IF r.kind \in {"ARRAY", "LIST"}
 Len4(r) == IF r.kind \in {"ARRAY", "LIST"} THEN MaxLen ELSE MaxLen + 3
 Init == cfg \in Cfgs /\ ops = <<>>
 Next == \E o \in Ops(cfg) : ops' = Append(ops, o) /\ UNCHANGED cfg
-Bound == Len(ops) <= Len4(cfg)
+(* the twin appears at most once per scenario (at every position, after and before every pattern of well-typed values) *)
+Bound == Len(ops) <= Len4(cfg) /\ Cardinality({i \in DOMAIN ops : ops[i].v = Bad + 1}) <= 1
 (* the base type rotates with the scenario (every declaration and every operation pattern meets every base over the sequences) *)
 RECURSIVE Sum(_, _)
 Sum(q, i) == IF i > Len(q) THEN 0 ELSE q[i].i * i + q[i].v + Sum(q, i + 1)
